@@ -471,6 +471,12 @@ pub(crate) async fn run_tsync(script: &Script, obs: &mut Vec<String>) {
                 chan.log(format!("inj {} {}", t, hex(&data)));
                 let mut wrote = Vec::new();
                 deliver(&mut m_handle, &data, |w| wrote.push(w)).await;
+                // the master has run until it blocked again: whatever it wrote is in the event queue
+                while let Some(ev) = m_handle.pop_event() {
+                    if let Event::Write(w) = ev {
+                        wrote.push(w);
+                    }
+                }
                 for w in wrote {
                     chan.master_wrote(w);
                 }
